@@ -491,6 +491,41 @@ def shrink_diff(case: dict, failing, budget: int = 120) -> dict:
     return cur
 
 
+def seq_fails(r: dict, steps) -> bool:
+    if 'n' not in r or len(r['n']) != len(steps):
+        return False
+    for st, n_, s_ in zip(steps, r['n'], r['s']):
+        if st == 'a':
+            ok = (n_.get('err') == 'TemplateAssertionError' and s_.get('ok') == 'RAISEok') or (n_.get('ok') == 'ok' and s_.get('ok') == 'ok')
+        else:
+            ok = 'ok' in n_ and n_.get('ok') == s_.get('ok')
+        if not ok:
+            return True
+    return False
+
+
+def shrink_seq(case: dict, budget: int = 40):
+    """greedy: drop renders, then shorten scripts, while the nunavut renders still differ from the ordinary conditionals"""
+    cur = case
+    res = run_impl('ext_seq', [cur])[0]
+    changed = True
+    while changed and budget > 0:
+        changed = False
+        cands = [dict(cur, steps=cur['steps'][:i] + cur['steps'][i + 1:]) for i in range(len(cur['steps'])) if len(cur['steps']) > 1]
+        cands += [dict(cur, scripts=dict(cur['scripts'], **{k: v[:-1]})) for k, v in cur['scripts'].items() if len(v) > 1]
+        for cand in cands:
+            budget -= 1
+            if budget <= 0:
+                break
+            r = run_impl('ext_seq', [cand])[0]
+            if seq_fails(r, cand['steps']):
+                cur, res, changed = cand, r, True
+                break
+    used = set(cur['steps'])
+    cur = dict(cur, templates={k: v for k, v in cur['templates'].items() if k in used}, plain={k: v for k, v in cur['plain'].items() if k in used})
+    return cur, res
+
+
 # ---------------------------------------------------------------------------------------------
 def main(chk: core.Check, replay: typing.Optional[str] = None) -> int:
     quick = chk.tier == 'quick'
@@ -827,7 +862,11 @@ def main(chk: core.Check, replay: typing.Optional[str] = None) -> int:
             else:
                 ok = 'ok' in n_ and n_.get('ok') == s_.get('ok')
             if not ok:
-                bad_oracle.append({'level': 'ifuses/assert over renders in one environment', 'case': c, 'render_index': j, 'nunavut': r['n'], 'ordinary_conditionals_in_stock_jinja2': r['s']})
+                small_c, small_r = c, r
+                if not any(b_['level'].startswith('ifuses/assert over') for b_ in bad_oracle):
+                    small_c, small_r = shrink_seq(c)     # shrink the first one only
+                bad_oracle.append({'level': 'ifuses/assert over renders in one environment', 'case': small_c, 'nunavut': small_r['n'],
+                                   'ordinary_conditionals_in_stock_jinja2': small_r['s']})
                 break
         if ok_model and m_seq[i].startswith('OK'):
             nums = m_seq[i].split(' ')[1:]
@@ -889,7 +928,7 @@ def main(chk: core.Check, replay: typing.Optional[str] = None) -> int:
 
     chk.coverage.update({
         'evaluations': stats.get('lex_sources', 0) + stats.get('lineprefix_cases', 0) + stats.get('autoindent_cases', 0) + stats.get('ext_cases', 0)
-        + stats.get('diff_templates', 0),
+        + stats.get('diff_templates', 0) + stats.get('lexopt_sources', 0) + stats.get('seq_cases', 0),
         'distinct_nontrivial': len(distinct),
         'rule': 'distinct cases among: lexer sources containing a marker on which the bundled and stock scanner models differ; lineprefix inputs '
                 'with more than one line that the filter changes; auto-indent templates with a non-empty blank run and a multi-line construct; '
